@@ -82,13 +82,36 @@ def run(R):
         for o in ([28, 32, 48, 64] if alg == "blake2b" else [28, 32]):
             for n in (range(0, 2 * b + 2) if thorough else [0, 1, b - 1, b, b + 1, 2 * b, 2 * b + 1]):
                 add({"alg": alg, "api": "const", "outlen": o, "key": [], "ctor": "marker" if n % 2 else "ctx"}, vlib.prng_bytes(R.seed, "c01f/%s/%d" % (alg, o), n), (alg, o, 0, n, "fixed"))
+        # output sizes that are not a whole number of bytes (the const-generic contexts take BITS): fresh contexts, keyed and not
+        for bits in ((1, 7, 9, 250, 505, 511) if alg == "blake2b" else (1, 7, 9, 250, 255)):
+            for k in (0, 1, mk):
+                for n in ((0, 3, b + 1) if thorough or k == 0 else (3,)):
+                    h = {"id": R.next_id(), "cls": "hash", "alg": alg, "api": "const", "bits": bits, "key": keys[:k], "keyed": k > 0, "ctor": "marker" if (bits + k) % 2 else "ctx",
+                         "ev": [{"op": "new"}, {"op": "update", "x": 1, "data": vlib.prng_bytes(R.seed, "c01bits/%s/%d" % (alg, bits), n)}, {"op": "finalize_at", "x": 1, "n": (bits + 7) // 8}]}
+                    hs.append(h)
+                    R.count((alg, "bits", bits, k, n))
+    # the legacy digest objects (cryptoxide::sha2::Sha256 ... - wrappers around the contexts, one per variant): input + result, two lengths each
+    legacy = []
+    for alg in hc.FIXED:
+        b = hc.block_of(alg)
+        for n in (3, b + 1):
+            legacy.append({"id": R.next_id(), "cls": "digest", "alg": alg,
+                           "ev": [{"op": "new"}, {"op": "input", "x": 1, "data": vlib.prng_bytes(R.seed, "c01leg/" + alg, n)}, {"op": "result", "x": 1}]})
+            R.count((alg, "legacy-object", n))
+    for alg, (b, mo, mk) in hc.BLAKE.items():
+        for o, k in ((mo, 0), (20, 0), (mo, mk), (1, 3)):
+            legacy.append({"id": R.next_id(), "cls": "digest", "alg": alg, "outlen": o, "key": vlib.prng_bytes(R.seed, "c01legk/" + alg, k),
+                           "ev": [{"op": "new"}, {"op": "input", "x": 1, "data": vlib.prng_bytes(R.seed, "c01leg/" + alg, b + 1)}, {"op": "result", "x": 1}]})
+            R.count((alg, "legacy-object", o, k))
     R.rule = ("one history per (variant, message): one-shot function + Context::update/finalize; fixed variants x lengths "
               + ("0..4*block+1" if thorough else "{0,1,block-LB-2..block+1,2*block-1..2*block+1}") +
               "; BLAKE2 (outlen,keylen) " + ("full grid x msg lengths {0,1,B,B+1}" if thorough else "corners + seeded sample of 75 pairs") +
               "; distinct = (variant[,outlen,keylen],length); non-trivial = message not empty")
     res = R.conform("TraceHash", hs, cost=hc.cost_hash, describe=lambda r, v: {"cls": "hash", "alg": r["alg"], "op": r["ev"][v[1] - 1]["op"]},
                     timeout=3000 if thorough else 900)
-    for r in res["records"][:3] + res["records"][-2:]:
+    from props import maccommon as mc
+    R.conform("TraceMac", legacy, cost=mc.cost_mac, describe=mc.describe, label="TraceMac.legacy")
+    for r in [x for x in res["records"] if x["ev"][0]["op"] == "oneshot"][:3] + [x for x in res["records"] if x["ev"][0]["op"] == "oneshot"][-2:]:
         R.sample({"alg": r["alg"], "msg_len": len(r["ev"][0]["data"]), "outlen": r.get("outlen"), "keylen": len(r.get("key", [])),
                   "oneshot_digest": vlib.hexs(r["ev"][0]["out"]["v"]), "verdict": res["verdicts"][r["id"]][0]})
     R.assumptions += ["TLC and the CommunityModules Java overrides evaluate the functional modules correctly (guarded by SpecKAT at setup)",
